@@ -374,32 +374,23 @@ func writeValue(buf *bytes.Buffer, v value) {
 	case nil, bool, int, int8, int16, int32, int64, uint, uint8, uint16, uint32, uint64, uintptr, float32, float64, complex64, complex128, string:
 		fmt.Fprintf(buf, "%v", v)
 
-	case map[value]value:
+	case *omap:
 		buf.WriteString("map[")
-		sep := ""
-		for k, e := range v {
-			buf.WriteString(sep)
-			sep = " "
-			writeValue(buf, k)
+		for i, e := range v.live() {
+			if i > 0 {
+				buf.WriteString(" ")
+			}
+			writeValue(buf, e.key)
 			buf.WriteString(":")
-			writeValue(buf, e)
+			writeValue(buf, e.val)
 		}
 		buf.WriteString("]")
 
-	case *hashmap:
-		buf.WriteString("map[")
-		sep := " "
-		for _, e := range v.entries() {
-			for e != nil {
-				buf.WriteString(sep)
-				sep = " "
-				writeValue(buf, e.key)
-				buf.WriteString(":")
-				writeValue(buf, e.value)
-				e = e.next
-			}
-		}
-		buf.WriteString("]")
+	case sym:
+		buf.WriteString("<sym " + v.t + ">")
+
+	case symstr:
+		buf.WriteString("<symstr>")
 
 	case chan value:
 		fmt.Fprintf(buf, "%v", v) // (an address)
@@ -496,37 +487,3 @@ func (it *stringIter) next() tuple {
 	return okv
 }
 
-type mapIter struct {
-	iter *reflect.MapIter
-	ok   bool
-}
-
-func (it *mapIter) next() tuple {
-	it.ok = it.iter.Next()
-	if !it.ok {
-		return []value{false, nil, nil}
-	}
-	k, v := it.iter.Key().Interface(), it.iter.Value().Interface()
-	return []value{true, k, v}
-}
-
-type hashmapIter struct {
-	iter *reflect.MapIter
-	ok   bool
-	cur  *entry
-}
-
-func (it *hashmapIter) next() tuple {
-	for {
-		if it.cur != nil {
-			k, v := it.cur.key, it.cur.value
-			it.cur = it.cur.next
-			return []value{true, k, v}
-		}
-		it.ok = it.iter.Next()
-		if !it.ok {
-			return []value{false, nil, nil}
-		}
-		it.cur = it.iter.Value().Interface().(*entry)
-	}
-}
